@@ -16,7 +16,8 @@ def fillEntry (i x : Nat) : (Bytes × Bytes) × Nat :=
   let ts := (x >>> 33) % 8
   let del := (x >>> 40) % 3 == 0
   let app : Bytes := if del then [] else [UInt8.ofNat ((x >>> 48) % 256)]
-  let v := be64 ts ++ be64 ((x >>> 20) % 5) ++ [0, if del then 1 else 0, 0, 0, 0, 0, 0, 0] ++ app
+  let ext : Bytes := if (x >>> 44) % 4 == 0 then [24, 25, 26, 27, 28, 29, 30, 31] else []
+  let v := be64 ts ++ be64 ((x >>> 20) % 5) ++ [0, if del then 1 else 0, 0, 0, 0, 0, 0, if ext.isEmpty then 0 else 1] ++ ext ++ app
   ((([0x6b] : Bytes) ++ dec6 i, v), x)
 
 def fillOps (dbi : Bytes) (count seed : Nat) : List AppOp :=
